@@ -6,6 +6,14 @@
 //	streamir -src <gcp_interceptor.go> [-coq StreamIR.v] [-ir stream.ir]
 //	         [-instrument <copy.go>] [-manifest <file>]
 //
+// Calls of other methods of *gcpClientStream defined in the same file are
+// inlined (second half of this file): the instruction set has no call and no boolean or
+// error-valued local besides `err`, so a helper that returns a value is
+// expanded at the call site and each of its return paths continues with the
+// caller's code specialised on the returned value (branch duplication).
+// Recursive helpers, helpers with two or more results, method values and calls
+// in positions other than the recognised ones are refused (exit 1, file:line).
+//
 // -instrument writes a line-preserving copy of the source with
 // `vsYield("<site>"); ` in front of every yield point (Lock, Unlock, Wait,
 // Broadcast, the streamer call, delegations, <-ctx.Done()).
@@ -53,9 +61,11 @@ type tr struct {
 	decls    map[string]*ast.FuncDecl // methods of *gcpClientStream
 	watch    string                   // name of the spawned helper
 	inserts  []insertion
-	inlining map[string]bool
+	inlining []string // helpers being expanded (innermost last)
 	yields   int
-	nest     int // depth of if/for bodies being translated
+	nest     int    // depth of if/for bodies being translated (within the current method or helper)
+	w        writes // how often the thread-local registers of the model were written so far
+	tmp      int    // fresh names for hoisted helper results
 }
 
 func (t *tr) fail(p token.Pos, format string, a ...interface{}) {
@@ -73,6 +83,16 @@ type fctx struct {
 	void        bool
 	inlined     bool
 	deferUnlock bool // `defer cs.Unlock()` is pending: every return unlocks first
+
+	// inlining of helpers
+	top      []string          // parameters of the translated (outermost) method
+	alias    map[string]string // local name -> the parameter of the outermost method it stands for
+	syms     map[string]sval   // locals bound to symbolic values; never updated in place
+	errKnown int               // what is known about errVar on this path: +1 non-nil, -1 nil, 0 nothing
+	resType  string            // helper: "" (no result), "bool", "error", "value"
+	loop     int               // depth of loops of this method/helper being translated
+	// helper with `return` statements: what follows the call, given the returned value
+	retK func(v sval, at token.Pos) []*node
 }
 
 func isSel(e ast.Expr, path ...string) bool {
@@ -148,27 +168,70 @@ func terminates(ns []*node) bool {
 	return false
 }
 
+// cond translates a condition; one that is decided by what is known on this
+// path (see condS) becomes the constant.
 func (t *tr) cond(f *fctx, e ast.Expr) string {
+	c, st := t.condS(f, e)
+	switch {
+	case st > 0:
+		return "CTrue"
+	case st < 0:
+		return "(CNot CTrue)"
+	}
+	return c
+}
+
+// condS translates a condition.  The second result tells whether its value is
+// known on the path being translated: +1 true, -1 false, 0 not known (the
+// first result is then evaluated at run time).  Known are: a boolean local
+// whose defining test was turned into a branch (below), a helper's result,
+// and `err` after a test of `err` itself.
+func (t *tr) condS(f *fctx, e ast.Expr) (string, int) {
 	e = unparen(e)
 	switch x := e.(type) {
 	case *ast.Ident:
 		if x.Name == "true" {
-			return "CTrue"
+			return "CTrue", 0
+		}
+		if v, ok := f.syms[x.Name]; ok && x.Name != f.errVar {
+			if v.kind != vBool {
+				t.fail(x.Pos(), "%s is not a boolean", x.Name)
+			}
+			if v.b {
+				return "CTrue", 1
+			}
+			return "(CNot CTrue)", -1
 		}
 	case *ast.SelectorExpr:
 		if isSel(x, f.recv, "watching") {
-			return "CWatching"
+			return "CWatching", 0
 		}
 	case *ast.UnaryExpr:
 		if x.Op == token.NOT {
-			return neg(t.cond(f, x.X))
+			c, st := t.condS(f, x.X)
+			return neg(c), -st
 		}
 	case *ast.BinaryExpr:
 		switch x.Op {
-		case token.LAND:
-			return "(CAnd " + t.cond(f, x.X) + " " + t.cond(f, x.Y) + ")"
-		case token.LOR:
-			return "(COr " + t.cond(f, x.X) + " " + t.cond(f, x.Y) + ")"
+		case token.LAND, token.LOR:
+			a, sa := t.condS(f, x.X)
+			b, sb := t.condS(f, x.Y)
+			// conditions have no side effects: a known operand is dropped or decides
+			unit, op := 1, "CAnd"
+			if x.Op == token.LOR {
+				unit, op = -1, "COr"
+			}
+			switch {
+			case sa == -unit:
+				return a, sa
+			case sa == unit:
+				return b, sb
+			case sb == -unit:
+				return b, sb
+			case sb == unit:
+				return a, 0
+			}
+			return "(" + op + " " + a + " " + b + ")", 0
 		case token.EQL, token.NEQ:
 			l, r := unparen(x.X), unparen(x.Y)
 			if isNil(l) {
@@ -184,26 +247,44 @@ func (t *tr) cond(f *fctx, e ast.Expr) string {
 				}
 				return whenNeq
 			}
+			// nonnil: +1 the operand is known to be non-nil, -1 known to be nil
+			known := func(nonnil int) int {
+				if eq {
+					return -nonnil
+				}
+				return nonnil
+			}
 			switch {
 			case isSel(l, f.recv, "ClientStream"):
-				return pick("CStreamNil", "(CNot CStreamNil)")
+				return pick("CStreamNil", "(CNot CStreamNil)"), 0
 			case isSel(l, f.recv, "initStreamErr"):
-				return pick("(CNot CErrSet)", "CErrSet")
+				return pick("(CNot CErrSet)", "CErrSet"), 0
 			case isIdent(l, f.errVar):
-				return pick("(CNot CLocalErr)", "CLocalErr")
+				return pick("(CNot CLocalErr)", "CLocalErr"), known(f.errKnown)
+			}
+			if id, ok := l.(*ast.Ident); ok {
+				if v, ok := f.syms[id.Name]; ok {
+					switch v.kind {
+					case vNil:
+						return pick("CTrue", "(CNot CTrue)"), known(-1)
+					case vCtxErr:
+						return pick("(CNot CTrue)", "CTrue"), known(1)
+					}
+					t.fail(x.Pos(), "comparison of %s with nil: the translator does not know whether this value is nil", id.Name)
+				}
 			}
 			if c, ok := l.(*ast.CallExpr); ok && len(c.Args) == 0 {
 				if isSel(c.Fun, f.recv, "ctx", "Err") {
-					return pick("CCtxLive", "(CNot CCtxLive)")
+					return pick("CCtxLive", "(CNot CCtxLive)"), 0
 				}
 				if isSel(c.Fun, f.recv, "ctx", "Done") {
-					return pick("(CNot CCancellable)", "CCancellable")
+					return pick("(CNot CCancellable)", "CCancellable"), 0
 				}
 			}
 		}
 	}
 	t.fail(e.Pos(), "unrecognised condition")
-	return ""
+	return "", 0
 }
 
 // log-like calls that do not touch the stream wrapper's synchronisation
@@ -254,13 +335,7 @@ func (t *tr) isCtxErrValue(f *fctx, e ast.Expr) bool {
 	return ok && len(a.Args) == 0 && isSel(a.Fun, f.recv, "ctx", "Err")
 }
 
-func (t *tr) block(f *fctx, stmts []ast.Stmt) []*node {
-	var out []*node
-	for _, s := range stmts {
-		out = append(out, t.stmt(f, s)...)
-	}
-	return out
-}
+func (t *tr) block(f *fctx, stmts []ast.Stmt) []*node { return t.seq(f, stmts, nil) }
 
 func leaf(op string, args ...string) []*node { return []*node{{op: op, args: args}} }
 
@@ -298,10 +373,14 @@ func (t *tr) stmt(f *fctx, s ast.Stmt) []*node {
 				t.yield(x.Pos(), "wait")
 				return leaf("IWait")
 			}
-			// cs.helper(): inline
+			// cs.helper() without parameters, results and return statements: the body in place
+			// (every other helper call is expanded by t.special)
 			if sel, ok := c.Fun.(*ast.SelectorExpr); ok && isIdent(sel.X, f.recv) {
 				if d, ok := t.decls[sel.Sel.Name]; ok {
-					return t.inline(d, x.Pos())
+					w0 := t.w
+					ns := t.inline(d, x.Pos())
+					t.clobber(f, w0)
+					return ns
 				}
 			}
 		}
@@ -327,27 +406,50 @@ func (t *tr) stmt(f *fctx, s ast.Stmt) []*node {
 		// returns that do not delegate (a delegation would run with the mutex held across the call of the
 		// underlying stream - not the same behaviour, and not what the model's mutex discipline allows).
 		c := x.Call
-		if len(c.Args) == 0 && (isSel(c.Fun, f.recv, "Unlock") || isSel(c.Fun, f.recv, "Mutex", "Unlock")) && !f.inlined && !f.deferUnlock && t.nest == 0 {
+		if len(c.Args) == 0 && (isSel(c.Fun, f.recv, "Unlock") || isSel(c.Fun, f.recv, "Mutex", "Unlock")) && (!f.inlined || f.retK != nil) && !f.deferUnlock && t.nest == 0 {
 			f.deferUnlock = true
 			return nil
 		}
-		t.fail(x.Pos(), "this defer is not supported (only one `defer cs.Unlock()` directly in a method body)")
+		t.fail(x.Pos(), "this defer is not supported (only one `defer cs.Unlock()` directly in the body of a method or of a helper with return statements)")
 	case *ast.IfStmt:
 		var out []*node
 		if x.Init != nil {
 			out = append(out, t.stmt(f, x.Init)...)
 		}
-		c := t.cond(f, x.Cond)
+		c, st := t.condS(f, x.Cond)
+		syms := f.syms // bindings of symbolic locals made in the statement end with it
+		if st != 0 {
+			// decided on this path: only the branch that is taken
+			var ns []*node
+			t.nest++
+			if st > 0 {
+				ns = t.block(f, x.Body.List)
+			} else if x.Else != nil {
+				ns = t.stmt(f, x.Else)
+			}
+			t.nest--
+			t.unscope(f, syms)
+			return append(out, ns...)
+		}
+		pre := f.errKnown
 		// local-variable bindings made in one branch must not leak into the other
 		saved := *f
+		f.errKnown = refine(pre, c, true)
 		t.nest++
 		a := t.block(f, x.Body.List)
 		t.nest--
 		afterA := *f
 		if x.Else == nil {
+			if terminates(a) {
+				f.errKnown = refine(pre, c, false)
+			} else {
+				f.errKnown = join(afterA.errKnown, refine(pre, c, false))
+			}
+			t.unscope(f, syms)
 			return append(out, &node{op: "IIf", cnd: c, body: a, has: true})
 		}
 		*f = saved
+		f.errKnown = refine(pre, c, false)
 		t.nest++
 		b := t.stmt(f, x.Else) // a block or another if statement
 		t.nest--
@@ -360,6 +462,14 @@ func (t *tr) stmt(f *fctx, s ast.Stmt) []*node {
 				*f = afterA
 			}
 		}
+		switch {
+		case terminates(a):
+		case terminates(b):
+			f.errKnown = afterA.errKnown
+		default:
+			f.errKnown = join(afterA.errKnown, f.errKnown)
+		}
+		t.unscope(f, syms)
 		// if C {A} else {B}; rest  ==  if C {A}; B; rest      when A ends the call
 		//                          ==  if !C {B}; A; rest     when B ends the call
 		switch {
@@ -375,13 +485,20 @@ func (t *tr) stmt(f *fctx, s ast.Stmt) []*node {
 		if x.Init != nil || x.Post != nil {
 			t.fail(x.Pos(), "only `for cond { ... }` loops are supported")
 		}
+		// nothing that was learnt about err before the loop holds at the head of a later iteration
+		f.errKnown = 0
 		c := "CTrue"
 		if x.Cond != nil {
 			c = t.cond(f, x.Cond)
 		}
+		syms := f.syms
 		t.nest++
+		f.loop++
 		body := t.block(f, x.Body.List)
+		f.loop--
 		t.nest--
+		f.errKnown = 0
+		t.unscope(f, syms)
 		return []*node{{op: "IWhile", cnd: c, body: body, has: true}}
 	case *ast.AssignStmt:
 		return t.assign(f, x)
@@ -394,14 +511,16 @@ func (t *tr) stmt(f *fctx, s ast.Stmt) []*node {
 
 func (t *tr) inline(d *ast.FuncDecl, at token.Pos) []*node {
 	name := d.Name.Name
-	if t.inlining[name] {
+	if t.isInlining(name) {
 		t.fail(at, "recursive helper %s", name)
 	}
 	if d.Type.Params.NumFields() != 0 || d.Type.Results.NumFields() != 0 {
 		t.fail(at, "helper %s takes parameters or returns values", name)
 	}
-	t.inlining[name] = true
-	defer delete(t.inlining, name)
+	inl, nest := t.inlining, t.nest
+	t.inlining = append(append([]string{}, inl...), name)
+	t.nest = 0
+	defer func() { t.inlining, t.nest = inl, nest }()
 	f := &fctx{recv: recvName(d), name: name, void: true, inlined: true}
 	return t.block(f, d.Body.List)
 }
@@ -442,6 +561,8 @@ func (t *tr) assign(f *fctx, x *ast.AssignStmt) []*node {
 				t.fail(c.Args[0].Pos(), "unrecognised context argument of the streamer call")
 			}
 			f.csVar, f.errVar = a.Name, b.Name
+			t.wrote(f, true, true, false)
+			f.syms = without(without(f.syms, a.Name), b.Name)
 			t.yield(x.Pos(), "streamer")
 			return leaf("ICallStreamer", local)
 		}
@@ -470,13 +591,15 @@ func (t *tr) assign(f *fctx, x *ast.AssignStmt) []*node {
 			if !ok {
 				t.fail(el.Pos(), "gcpContext literal without field names")
 			}
-			if isIdent(kv.Key, "reqMsg") && len(f.params) > 0 && isIdent(kv.Value, f.params[0]) {
+			if isIdent(kv.Key, "reqMsg") && len(f.top) > 0 && f.standsFor(kv.Value, f.top[0]) {
 				withmsg = "true"
 			} else if isIdent(kv.Key, "reqMsg") {
 				t.fail(kv.Pos(), "reqMsg is not the message passed to %s", f.name)
 			}
 		}
 		f.ctxVar = id.Name
+		t.wrote(f, false, false, true)
+		f.syms = without(f.syms, id.Name)
 		return leaf("IMkCtx", withmsg)
 	}
 	switch {
@@ -494,6 +617,8 @@ func (t *tr) assign(f *fctx, x *ast.AssignStmt) []*node {
 				t.fail(x.Pos(), "assignment to an unknown variable")
 			}
 			f.errVar = id.Name
+			t.wrote(f, true, false, false)
+			f.syms = without(f.syms, id.Name)
 			return leaf("ILoadErr")
 		}
 	}
@@ -502,6 +627,9 @@ func (t *tr) assign(f *fctx, x *ast.AssignStmt) []*node {
 }
 
 func (t *tr) ret(f *fctx, x *ast.ReturnStmt) []*node {
+	if f.retK != nil {
+		return t.retHelper(f, x)
+	}
 	if f.inlined {
 		t.fail(x.Pos(), "return inside the inlined helper %s", f.name)
 	}
@@ -533,6 +661,29 @@ func (t *tr) ret(f *fctx, x *ast.ReturnStmt) []*node {
 		t.yield(x.Pos(), "unlock")
 		pre = leaf("IUnlock")
 	}
+	if id, ok := e.(*ast.Ident); ok && id.Name != f.errVar {
+		// a local that holds a helper's result
+		if v, ok := f.syms[id.Name]; ok {
+			switch v.kind {
+			case vNil:
+				return append(pre, leaf("IReturn", "RNil")...)
+			case vCtxErr:
+				return append(pre, leaf("IReturn", "RCtxErr")...)
+			case vCallCtx:
+				return append(pre, leaf("IReturn", "RCallCtx")...)
+			case vDeleg:
+				// the underlying stream was called by the helper, as its last action
+				if f.deferUnlock {
+					t.fail(x.Pos(), "delegation under `defer cs.Unlock()`: the underlying stream would be called with the wrapper's mutex held")
+				}
+				if len(x.Results) != 1 {
+					t.fail(x.Pos(), "unrecognised delegation")
+				}
+				return leaf("IDelegate", v.meth, fmt.Sprint(v.same))
+			}
+			t.fail(x.Pos(), "unrecognised return value (%s)", id.Name)
+		}
+	}
 	switch {
 	case isNil(e):
 		return append(pre, leaf("IReturn", "RNil")...)
@@ -541,6 +692,8 @@ func (t *tr) ret(f *fctx, x *ast.ReturnStmt) []*node {
 	case isSel(e, f.recv, "initStreamErr"):
 		if f.deferUnlock {
 			// read under the lock
+			t.wrote(f, true, false, false)
+			f.errVar = ""
 			return append(append(leaf("ILoadErr"), pre...), leaf("IReturn", "RLocalErr")...)
 		}
 		return leaf("IReturn", "RInitErr")
@@ -561,14 +714,7 @@ func (t *tr) ret(f *fctx, x *ast.ReturnStmt) []*node {
 			if len(x.Results) != 1 {
 				t.fail(x.Pos(), "unrecognised delegation")
 			}
-			same := len(c.Args) == len(f.params) && !c.Ellipsis.IsValid()
-			if same {
-				for i, a := range c.Args {
-					if !isIdent(a, f.params[i]) {
-						same = false
-					}
-				}
-			}
+			same := t.sameArgs(f, c)
 			t.yield(x.Pos(), "deleg")
 			return leaf("IDelegate", m, fmt.Sprint(same))
 		}
@@ -630,7 +776,7 @@ func main() {
 		fmt.Fprintln(os.Stderr, "usage: streamir -src gcp_interceptor.go [-coq f] [-ir f] [-instrument f] [-manifest f]")
 		os.Exit(2)
 	}
-	t := &tr{fset: token.NewFileSet(), decls: map[string]*ast.FuncDecl{}, inlining: map[string]bool{}}
+	t := &tr{fset: token.NewFileSet(), decls: map[string]*ast.FuncDecl{}}
 	defer func() {
 		if r := recover(); r != nil {
 			if f, ok := r.(failure); ok {
@@ -742,10 +888,14 @@ func main() {
 			promoted = append(promoted, m)
 			continue
 		}
-		f := &fctx{recv: recvName(d), name: m}
+		f := &fctx{recv: recvName(d), name: m, alias: map[string]string{}}
 		for _, p := range d.Type.Params.List {
 			for _, n := range p.Names {
 				f.params = append(f.params, n.Name)
+				f.top = append(f.top, n.Name)
+				if n.Name != "_" {
+					f.alias[n.Name] = n.Name
+				}
 			}
 		}
 		if f.recv == "" {
@@ -830,4 +980,749 @@ func main() {
 			os.Exit(1)
 		}
 	}
+}
+
+// ---------------------------------------------------------------- inlining
+//
+// Inlining of calls to other methods of *gcpClientStream ("helpers").
+//
+// The instruction set of Stream/Sem.v has no call instruction and, besides the
+// register behind `err`, no local that could hold a helper's result.  A helper
+// is therefore expanded at the call site, and a helper that has `return`
+// statements is expanded together with everything that follows the call in the
+// caller's block: each `return e` of the helper continues with that code,
+// translated again for this path with the result bound to what is known about
+// e (branch duplication).  Nothing is assumed about a returned value that the
+// model can test: where the value depends on the state (a condition, or
+// status.FromContextError(cs.ctx.Err()).Err(), which is nil while the context
+// is alive) a branch on exactly that test is emitted at the place where the
+// helper evaluates it, so a read of cs.ClientStream made under the lock stays
+// under the lock.
+//
+// Recognised call sites:
+//
+//	cs.h(a...)                               statement, result (if any) dropped
+//	x := cs.h(a...)                          and `_ = cs.h(a...)`
+//	if x := cs.h(a...); <cond> { } else { }
+//	if <cond> { } else { }                   where the first operand <cond> evaluates is
+//	                                         cs.h(a...), !cs.h(a...), cs.h(a...) ==/!= nil
+//	return cs.h(a...)                        and `return nil, cs.h(a...)`
+//
+// and, in any method or helper, `b := <condition>` (a boolean local).
+// Helpers have at most one, unnamed, result; arguments are parameters of the
+// translated method (passed on under any name), nil or literals.  Everything
+// else fails loudly.
+
+// ---- symbolic values
+
+const (
+	vVoid     = iota // the helper has no result
+	vNil             // the literal nil
+	vLocalErr        // held by the model's `err` register; known: is it nil
+	vCtxErr          // status.FromContextError(cs.ctx.Err()).Err() of a context that HAS ended (non-nil for good)
+	vCallCtx         // cs.ctx
+	vBool            // a boolean that is decided on this path
+	vDeleg           // the result of cs.ClientStream.M(args), called as the helper's last action
+)
+
+type sval struct {
+	kind  int
+	known int    // vLocalErr: +1 non-nil, -1 nil, 0 not known
+	b     bool   // vBool
+	meth  string // vDeleg
+	same  bool   // vDeleg
+}
+
+// how often the per-thread registers of the model (lerr, lcs, lctx) have been written
+type writes struct{ lerr, lcs, lctx int }
+
+func (t *tr) wrote(f *fctx, lerr, lcs, lctx bool) {
+	if lerr {
+		t.w.lerr++
+		f.errKnown = 0
+	}
+	if lcs {
+		t.w.lcs++
+	}
+	if lctx {
+		t.w.lctx++
+	}
+}
+
+// clobber forgets the caller's variables whose register was written since w0
+func (t *tr) clobber(f *fctx, w0 writes) {
+	if t.w.lerr != w0.lerr {
+		f.errVar, f.errKnown = "", 0
+	}
+	if t.w.lcs != w0.lcs {
+		f.csVar = ""
+	}
+	if t.w.lctx != w0.lctx {
+		f.ctxVar = ""
+	}
+}
+
+func (t *tr) isInlining(name string) bool {
+	for _, n := range t.inlining {
+		if n == name {
+			return true
+		}
+	}
+	return false
+}
+
+func (t *tr) fresh() string {
+	t.tmp++
+	return fmt.Sprintf("·r%d", t.tmp) // not a Go identifier a source can contain
+}
+
+// standsFor: e is a local that holds the parameter `top` of the translated method
+func (f *fctx) standsFor(e ast.Expr, top string) bool {
+	id, ok := e.(*ast.Ident)
+	if !ok || top == "" || top == "_" {
+		return false
+	}
+	if _, shadowed := f.syms[id.Name]; shadowed {
+		return false
+	}
+	if id.Name == f.errVar || id.Name == f.csVar || id.Name == f.ctxVar {
+		return false
+	}
+	return f.alias[id.Name] == top
+}
+
+// sameArgs: the call passes on exactly the arguments of the translated method
+func (t *tr) sameArgs(f *fctx, c *ast.CallExpr) bool {
+	if len(c.Args) != len(f.top) || c.Ellipsis.IsValid() {
+		return false
+	}
+	for i, a := range c.Args {
+		if !f.standsFor(a, f.top[i]) {
+			return false
+		}
+	}
+	return true
+}
+
+func with(m map[string]sval, k string, v sval) map[string]sval {
+	n := make(map[string]sval, len(m)+1)
+	for a, b := range m {
+		n[a] = b
+	}
+	n[k] = v
+	return n
+}
+
+func without(m map[string]sval, k string) map[string]sval {
+	if _, ok := m[k]; !ok {
+		return m
+	}
+	n := make(map[string]sval, len(m))
+	for a, b := range m {
+		if a != k {
+			n[a] = b
+		}
+	}
+	return n
+}
+
+// unscope ends a scope: the symbolic bindings are those of its beginning.  A
+// register variable (bound in the scope, the translator lets those live on)
+// with the name of a symbolic local of the outer scope is dropped: the name
+// means the outer variable again.
+func (t *tr) unscope(f *fctx, syms map[string]sval) {
+	f.syms = syms
+	if _, ok := syms[f.errVar]; ok {
+		f.errVar, f.errKnown = "", 0
+	}
+	if _, ok := syms[f.csVar]; ok {
+		f.csVar = ""
+	}
+	if _, ok := syms[f.ctxVar]; ok {
+		f.ctxVar = ""
+	}
+}
+
+// refine: what is known about err in the branch `branch` of a test c
+func refine(pre int, c string, branch bool) int {
+	v := 0
+	switch c {
+	case "CLocalErr":
+		v = 1
+	case "(CNot CLocalErr)":
+		v = -1
+	default:
+		return pre
+	}
+	if !branch {
+		v = -v
+	}
+	return v
+}
+
+func join(a, b int) int {
+	if a == b {
+		return a
+	}
+	return 0
+}
+
+func hasReturn(n ast.Node) bool {
+	found := false
+	ast.Inspect(n, func(m ast.Node) bool {
+		switch m.(type) {
+		case *ast.FuncLit:
+			return false
+		case *ast.ReturnStmt:
+			found = true
+		}
+		return !found
+	})
+	return found
+}
+
+// helperCall: e is cs.h(...) with h a method of *gcpClientStream of this file
+func (t *tr) helperCall(f *fctx, e ast.Expr) (*ast.CallExpr, *ast.FuncDecl) {
+	c, ok := unparen(e).(*ast.CallExpr)
+	if !ok {
+		return nil, nil
+	}
+	sel, ok := c.Fun.(*ast.SelectorExpr)
+	if !ok || !isIdent(sel.X, f.recv) {
+		return nil, nil
+	}
+	if d, ok := t.decls[sel.Sel.Name]; ok {
+		return c, d
+	}
+	return nil, nil
+}
+
+// plain: the helper call that stmt() expands by itself (as before there were
+// helpers with results): no arguments, parameters, results or return statements
+func plain(c *ast.CallExpr, d *ast.FuncDecl) bool {
+	return len(c.Args) == 0 && d.Type.Params.NumFields() == 0 && d.Type.Results.NumFields() == 0 && !hasReturn(d.Body)
+}
+
+// leadCall: the helper call that is the first thing the condition e evaluates
+func (t *tr) leadCall(f *fctx, e ast.Expr) (*ast.CallExpr, *ast.FuncDecl) {
+	e = unparen(e)
+	switch x := e.(type) {
+	case *ast.CallExpr:
+		return t.helperCall(f, x)
+	case *ast.UnaryExpr:
+		if x.Op == token.NOT {
+			return t.leadCall(f, x.X)
+		}
+	case *ast.BinaryExpr:
+		switch x.Op {
+		case token.LAND, token.LOR:
+			return t.leadCall(f, x.X)
+		case token.EQL, token.NEQ:
+			if c, d := t.leadCall(f, x.X); c != nil {
+				return c, d
+			}
+			if isNil(unparen(x.X)) {
+				return t.leadCall(f, x.Y)
+			}
+		}
+	}
+	return nil, nil
+}
+
+// subst rebuilds the condition e with `by` in the place of target
+func subst(e ast.Expr, target, by ast.Expr) ast.Expr {
+	if e == target {
+		return by
+	}
+	switch x := e.(type) {
+	case *ast.ParenExpr:
+		y := *x
+		y.X = subst(x.X, target, by)
+		return &y
+	case *ast.UnaryExpr:
+		y := *x
+		y.X = subst(x.X, target, by)
+		return &y
+	case *ast.BinaryExpr:
+		y := *x
+		y.X, y.Y = subst(x.X, target, by), subst(x.Y, target, by)
+		return &y
+	}
+	return e
+}
+
+// looksLikeCond: the right-hand side of `b := ...` is a condition
+func (t *tr) looksLikeCond(f *fctx, e ast.Expr) bool {
+	switch x := unparen(e).(type) {
+	case *ast.BinaryExpr:
+		switch x.Op {
+		case token.LAND, token.LOR, token.EQL, token.NEQ:
+			return true
+		}
+	case *ast.UnaryExpr:
+		return x.Op == token.NOT
+	case *ast.SelectorExpr:
+		return isSel(x, f.recv, "watching")
+	case *ast.Ident:
+		if x.Name == "true" {
+			return true
+		}
+		v, ok := f.syms[x.Name]
+		return ok && v.kind == vBool && x.Name != f.errVar
+	}
+	return false
+}
+
+// rejectHelperCalls fails on a helper call (or a method value of a helper) in
+// the expressions of s itself - not in nested blocks, which are translated
+// statement by statement - i.e. on every use that t.special did not expand.
+func (t *tr) rejectHelperCalls(f *fctx, s ast.Stmt) {
+	var roots []ast.Node
+	switch x := s.(type) {
+	case *ast.ExprStmt:
+		if c, d := t.helperCall(f, x.X); c != nil && plain(c, d) {
+			return
+		}
+		roots = append(roots, x.X)
+	case *ast.AssignStmt:
+		for _, e := range x.Lhs {
+			roots = append(roots, e)
+		}
+		for _, e := range x.Rhs {
+			roots = append(roots, e)
+		}
+	case *ast.IfStmt:
+		if x.Init != nil {
+			t.rejectHelperCalls(f, x.Init)
+		}
+		roots = append(roots, x.Cond)
+	case *ast.ForStmt:
+		if x.Cond != nil {
+			roots = append(roots, x.Cond)
+		}
+	case *ast.ReturnStmt:
+		for _, e := range x.Results {
+			roots = append(roots, e)
+		}
+	case *ast.DeferStmt:
+		roots = append(roots, x.Call)
+	case *ast.DeclStmt:
+		roots = append(roots, x.Decl)
+	}
+	for _, r := range roots {
+		called := map[ast.Expr]bool{}
+		ast.Inspect(r, func(n ast.Node) bool {
+			switch y := n.(type) {
+			case *ast.CallExpr:
+				called[y.Fun] = true
+				if c, d := t.helperCall(f, y); c != nil {
+					t.fail(y.Pos(), "call of the helper %s in a position the translator does not inline (supported: statement, "+
+						"`x := cs.%s()`, `if x := cs.%s(); ...`, first operand of an if condition, `return cs.%s()`)",
+						d.Name.Name, d.Name.Name, d.Name.Name, d.Name.Name)
+				}
+			case *ast.SelectorExpr:
+				if isIdent(y.X, f.recv) && !called[y] {
+					if _, ok := t.decls[y.Sel.Name]; ok {
+						t.fail(y.Pos(), "method value %s.%s: helpers called through function values are not supported", f.recv, y.Sel.Name)
+					}
+				}
+			}
+			return true
+		})
+	}
+}
+
+// ---- statement lists
+
+type kont func(f *fctx) []*node
+
+// atNest: k, run with the nesting depth of the place it continues
+func (t *tr) atNest(k kont) kont {
+	n := t.nest
+	return func(g *fctx) []*node {
+		cur := t.nest
+		t.nest = n
+		defer func() { t.nest = cur }()
+		return k(g)
+	}
+}
+
+// seq translates stmts followed by k (nil: nothing follows in this block).
+func (t *tr) seq(f *fctx, stmts []ast.Stmt, k kont) []*node {
+	var out []*node
+	for i, s := range stmts {
+		rest := stmts[i+1:]
+		after := t.atNest(func(g *fctx) []*node { return t.seq(g, rest, k) })
+		if ns, ok := t.special(f, s, after); ok {
+			return append(out, ns...)
+		}
+		t.rejectHelperCalls(f, s)
+		ns := t.stmt(f, s)
+		out = append(out, ns...)
+		if terminates(ns) {
+			// every path ended the call: what follows is unreachable
+			return out
+		}
+		if _, ret := s.(*ast.ReturnStmt); ret && f.retK != nil {
+			// the helper returned: the caller's code is in ns already
+			return out
+		}
+	}
+	if k != nil {
+		out = append(out, k(f)...)
+	}
+	return out
+}
+
+// fork: a branch on c (known: st) with both continuations in the branches
+func (t *tr) fork(c string, st int, a, b func() []*node) []*node {
+	switch {
+	case st > 0:
+		return a()
+	case st < 0:
+		return b()
+	}
+	an, bn := a(), b()
+	ta, tb := terminates(an), terminates(bn)
+	if ta && tb && an[len(an)-1].op == "IDelegate" && bn[len(bn)-1].op != "IDelegate" {
+		// both end the call: the one that reaches the stream is written last, as in the source
+		return append([]*node{{op: "IIf", cnd: neg(c), body: bn, has: true}}, an...)
+	}
+	switch {
+	case ta:
+		return append([]*node{{op: "IIf", cnd: c, body: an, has: true}}, bn...)
+	case tb:
+		return append([]*node{{op: "IIf", cnd: neg(c), body: bn, has: true}}, an...)
+	}
+	return []*node{{op: "IIfElse", cnd: c, body: an, els: bn, has: true}}
+}
+
+// special translates the statement forms that need what follows them (`after`):
+// call sites of helpers, boolean locals, and - inside a helper with return
+// statements - every statement that contains a return.  ok=false: not such a
+// form, nothing was translated.
+func (t *tr) special(f *fctx, s ast.Stmt, after kont) ([]*node, bool) {
+	switch x := s.(type) {
+	case *ast.ExprStmt:
+		if c, d := t.helperCall(f, x.X); c != nil && !plain(c, d) {
+			return t.call(f, c, d, "", false, after), true
+		}
+	case *ast.AssignStmt:
+		if len(x.Rhs) != 1 {
+			return nil, false
+		}
+		if c, d := t.helperCall(f, x.Rhs[0]); c != nil {
+			if len(x.Lhs) != 1 {
+				t.fail(x.Pos(), "the results of the helper %s go to %d variables; only helpers with at most one result are inlined", d.Name.Name, len(x.Lhs))
+			}
+			id, ok := x.Lhs[0].(*ast.Ident)
+			if !ok {
+				t.fail(x.Pos(), "the result of the helper %s is not kept in a local variable", d.Name.Name)
+			}
+			if x.Tok != token.DEFINE && id.Name != "_" {
+				t.fail(x.Pos(), "the result of the helper %s is assigned to an existing variable; only `%s := %s.%s(...)` is supported", d.Name.Name, id.Name, f.recv, d.Name.Name)
+			}
+			return t.call(f, c, d, id.Name, false, after), true
+		}
+		if id, ok := x.Lhs[0].(*ast.Ident); ok && len(x.Lhs) == 1 && x.Tok == token.DEFINE && id.Name != "_" && t.looksLikeCond(f, x.Rhs[0]) {
+			// b := <condition>: the test is made here, what follows knows the outcome
+			c, st := t.condS(f, x.Rhs[0])
+			br := func(b bool) func() []*node {
+				return func() []*node {
+					g := *f
+					t.bind(&g, id.Name, sval{kind: vBool, b: b}, false, x.Pos())
+					return after(&g)
+				}
+			}
+			return t.fork(c, st, br(true), br(false)), true
+		}
+	case *ast.BlockStmt:
+		if f.retK != nil && hasReturn(x) {
+			syms := f.syms
+			return t.seq(f, x.List, func(g *fctx) []*node { t.unscope(g, syms); return after(g) }), true
+		}
+	case *ast.IfStmt:
+		if as, ok := x.Init.(*ast.AssignStmt); ok && len(as.Rhs) == 1 {
+			c, _ := t.helperCall(f, as.Rhs[0])
+			if c != nil || (as.Tok == token.DEFINE && len(as.Lhs) == 1 && t.looksLikeCond(f, as.Rhs[0])) {
+				// if x := cs.h(); cond ...   ==   x := cs.h(); if cond ...
+				y := *x
+				y.Init = nil
+				return t.seq(f, []ast.Stmt{as, &y}, after), true
+			}
+		}
+		if c, d := t.leadCall(f, x.Cond); c != nil {
+			var out []*node
+			if x.Init != nil {
+				t.rejectHelperCalls(f, x.Init)
+				out = t.stmt(f, x.Init)
+			}
+			name := t.fresh()
+			y := *x
+			y.Init = nil
+			y.Cond = subst(x.Cond, c, &ast.Ident{NamePos: c.Pos(), Name: name})
+			return append(out, t.call(f, c, d, name, false, func(g *fctx) []*node { return t.seq(g, []ast.Stmt{&y}, after) })...), true
+		}
+		if f.retK != nil && hasReturn(x) {
+			// inside a helper: a return continues with the caller's code, so the statements after this
+			// one belong into the branches (into the one that does not end the call, if one does)
+			var out []*node
+			if x.Init != nil {
+				t.rejectHelperCalls(f, x.Init)
+				out = t.stmt(f, x.Init)
+			}
+			c, st := t.condS(f, x.Cond)
+			syms := f.syms
+			then := func(g *fctx) []*node { t.unscope(g, syms); return after(g) }
+			br := func(branch bool) func() []*node {
+				return func() []*node {
+					g := *f
+					if st == 0 {
+						g.errKnown = refine(f.errKnown, c, branch)
+					}
+					switch {
+					case branch:
+						t.nest++
+						defer func() { t.nest-- }()
+						return t.seq(&g, x.Body.List, then)
+					case x.Else == nil:
+						return then(&g)
+					}
+					t.nest++
+					defer func() { t.nest-- }()
+					if e, ok := x.Else.(*ast.BlockStmt); ok {
+						return t.seq(&g, e.List, then)
+					}
+					return t.seq(&g, []ast.Stmt{x.Else}, then)
+				}
+			}
+			return append(out, t.fork(c, st, br(true), br(false))...), true
+		}
+	case *ast.ReturnStmt:
+		// return cs.h(...)  /  return nil, cs.h(...)
+		n := len(x.Results)
+		if n == 0 {
+			return nil, false
+		}
+		c, d := t.helperCall(f, x.Results[n-1])
+		if c == nil {
+			return nil, false
+		}
+		name := t.fresh()
+		y := *x
+		y.Results = append(append([]ast.Expr{}, x.Results[:n-1]...), &ast.Ident{NamePos: c.Pos(), Name: name})
+		return t.call(f, c, d, name, true, func(g *fctx) []*node { return t.seq(g, []ast.Stmt{&y}, nil) }), true
+	}
+	return nil, false
+}
+
+// bind: the local `name` holds v from here on
+func (t *tr) bind(g *fctx, name string, v sval, direct bool, at token.Pos) {
+	if name == "" || name == "_" {
+		if v.kind == vDeleg {
+			t.fail(at, "the helper calls the underlying stream as its last action and the caller drops the result; the model ends a call with the delegation")
+		}
+		return
+	}
+	switch v.kind {
+	case vVoid:
+		t.fail(at, "the helper has no result")
+	case vLocalErr:
+		g.errVar, g.errKnown = name, v.known
+		g.syms = without(g.syms, name)
+		if g.csVar == name {
+			g.csVar = ""
+		}
+		if g.ctxVar == name {
+			g.ctxVar = ""
+		}
+		return
+	case vDeleg:
+		if !direct {
+			t.fail(at, "the helper returns the result of a method of the underlying stream; only `return %s.<helper>(...)` is supported for such a helper", g.recv)
+		}
+	}
+	// the name shadows a register variable of the same name for the rest of this path
+	if g.errVar == name {
+		g.errVar, g.errKnown = "", 0
+	}
+	if g.csVar == name {
+		g.csVar = ""
+	}
+	if g.ctxVar == name {
+		g.ctxVar = ""
+	}
+	g.syms = with(g.syms, name, v)
+}
+
+// call expands the helper d at the call c of the caller f.  The result goes to
+// the caller's local `name` ("" or "_": dropped; direct: the local is a
+// temporary that is returned at once); `after` is what follows the call.
+func (t *tr) call(f *fctx, c *ast.CallExpr, d *ast.FuncDecl, name string, direct bool, after kont) []*node {
+	hname, at := d.Name.Name, c.Pos()
+	if t.isInlining(hname) {
+		t.fail(at, "recursive helper %s", hname)
+	}
+	fh := &fctx{recv: recvName(d), name: hname, inlined: true, top: f.top, alias: map[string]string{}}
+	if fh.recv == "" {
+		t.fail(d.Pos(), "helper %s has no receiver name", hname)
+	}
+	switch n := d.Type.Results.NumFields(); {
+	case n == 0:
+		fh.void = true
+	case n > 1:
+		t.fail(at, "helper %s returns %d values; only helpers with at most one result are inlined", hname, n)
+	default:
+		r := d.Type.Results.List[0]
+		if len(r.Names) != 0 {
+			t.fail(r.Pos(), "helper %s has a named result", hname)
+		}
+		switch {
+		case isIdent(r.Type, "bool"):
+			fh.resType = "bool"
+		case isIdent(r.Type, "error"):
+			fh.resType = "error"
+		default:
+			fh.resType = "value"
+		}
+	}
+	// arguments: a parameter of the translated method (under whatever name), nil or a literal
+	var params []*ast.Ident
+	for _, p := range d.Type.Params.List {
+		if _, variadic := p.Type.(*ast.Ellipsis); variadic {
+			t.fail(p.Pos(), "helper %s is variadic", hname)
+		}
+		if len(p.Names) == 0 {
+			params = append(params, &ast.Ident{Name: "_"})
+		}
+		params = append(params, p.Names...)
+	}
+	if len(params) != len(c.Args) || c.Ellipsis.IsValid() {
+		t.fail(at, "call of helper %s with %d arguments for %d parameters", hname, len(c.Args), len(params))
+	}
+	for i, a := range c.Args {
+		a = unparen(a)
+		id, isId := a.(*ast.Ident)
+		_, isLit := a.(*ast.BasicLit)
+		switch {
+		case isId && f.standsFor(id, f.alias[id.Name]):
+			if params[i].Name != "_" {
+				fh.alias[params[i].Name] = f.alias[id.Name]
+			}
+		case isNil(a), isLit, isId && (id.Name == "true" || id.Name == "false"):
+			// a use of the parameter that matters to the model is refused where it occurs
+		default:
+			t.fail(a.Pos(), "argument %d of the call of helper %s is neither a parameter of %s, nil nor a literal", i+1, hname, f.outer())
+		}
+	}
+	snap, w0 := *f, t.w
+	nest, inl := t.nest, t.inlining
+	fh.retK = func(v sval, pos token.Pos) []*node {
+		// the caller goes on, on this return path of the helper
+		g := snap
+		t.clobber(&g, w0)
+		t.bind(&g, name, v, direct, pos)
+		curNest, curInl := t.nest, t.inlining
+		t.nest, t.inlining = nest, inl
+		defer func() { t.nest, t.inlining = curNest, curInl }()
+		return after(&g)
+	}
+	t.inlining = append(append([]string{}, inl...), hname)
+	t.nest = 0
+	body := t.seq(fh, d.Body.List, func(g *fctx) []*node {
+		if !g.void {
+			t.fail(d.Body.Rbrace, "helper %s: the end of the body is reached without a return", hname)
+		}
+		return t.leave(g, d.Body.Rbrace, sval{kind: vVoid})
+	})
+	t.inlining, t.nest = inl, nest
+	// the state after the caller's block (whatever was bound in it is out of scope)
+	t.clobber(f, w0)
+	return body
+}
+
+// outer: name of the method being translated, for messages
+func (f *fctx) outer() string {
+	if f.inlined {
+		return "the translated method"
+	}
+	return f.name
+}
+
+// leave: the helper g returns v at pos
+func (t *tr) leave(g *fctx, pos token.Pos, v sval) []*node {
+	var pre []*node
+	if g.deferUnlock {
+		t.yield(pos, "unlock")
+		pre = leaf("IUnlock")
+	}
+	ns := append(pre, g.retK(v, pos)...)
+	if g.loop > 0 && !terminates(ns) {
+		t.fail(pos, "return inside a loop of the helper %s, and the code after the call does not end the method on every path: "+
+			"the model has no jump out of a loop", g.name)
+	}
+	return ns
+}
+
+// retHelper: a return statement of a helper that is expanded with its continuation
+func (t *tr) retHelper(f *fctx, x *ast.ReturnStmt) []*node {
+	if len(x.Results) == 0 {
+		if !f.void {
+			t.fail(x.Pos(), "bare return")
+		}
+		return t.leave(f, x.Pos(), sval{kind: vVoid})
+	}
+	if f.void || len(x.Results) != 1 {
+		t.fail(x.Pos(), "unrecognised return")
+	}
+	e := unparen(x.Results[0])
+	if f.resType == "bool" {
+		c, st := t.condS(f, e)
+		br := func(b bool) func() []*node {
+			return func() []*node { return t.leave(f, x.Pos(), sval{kind: vBool, b: b}) }
+		}
+		return t.fork(c, st, br(true), br(false))
+	}
+	if id, ok := e.(*ast.Ident); ok && id.Name != f.errVar {
+		if v, ok := f.syms[id.Name]; ok {
+			if v.kind == vBool {
+				t.fail(x.Pos(), "unrecognised return value (%s)", id.Name)
+			}
+			return t.leave(f, x.Pos(), v)
+		}
+	}
+	switch {
+	case isNil(e):
+		return t.leave(f, x.Pos(), sval{kind: vNil})
+	case isIdent(e, f.errVar):
+		return t.leave(f, x.Pos(), sval{kind: vLocalErr, known: f.errKnown})
+	case isSel(e, f.recv, "initStreamErr"):
+		// read here (under the lock, if the helper holds it), tested by the caller later
+		t.wrote(f, true, false, false)
+		f.errVar = ""
+		return append(leaf("ILoadErr"), t.leave(f, x.Pos(), sval{kind: vLocalErr})...)
+	case isSel(e, f.recv, "ctx"):
+		return t.leave(f, x.Pos(), sval{kind: vCallCtx})
+	case t.isCtxErrValue(f, e):
+		// nil as long as the context is alive: decided where the helper evaluates it
+		return t.fork("(CNot CCtxLive)", 0,
+			func() []*node { return t.leave(f, x.Pos(), sval{kind: vCtxErr}) },
+			func() []*node { return t.leave(f, x.Pos(), sval{kind: vNil}) })
+	}
+	if c, ok := e.(*ast.CallExpr); ok {
+		if sel, ok := c.Fun.(*ast.SelectorExpr); ok && isSel(sel.X, f.recv, "ClientStream") {
+			if f.deferUnlock {
+				t.fail(x.Pos(), "delegation under `defer cs.Unlock()`: the underlying stream would be called with the wrapper's mutex held")
+			}
+			m, ok := methCoq[sel.Sel.Name]
+			if !ok {
+				t.fail(x.Pos(), "delegation to an unknown method %s", sel.Sel.Name)
+			}
+			same := t.sameArgs(f, c)
+			t.yield(x.Pos(), "deleg")
+			return t.leave(f, x.Pos(), sval{kind: vDeleg, meth: m, same: same})
+		}
+	}
+	t.fail(x.Pos(), "unrecognised return value")
+	return nil
 }
